@@ -116,15 +116,19 @@ class Ctx:
         cov["known_findings_seen"] = [{"id": k, "count": v[1]} for k, v in self.known_hits.items()]
         ev = {"property_id": self.pid, "tier": self.tier, "seed": self.seed, "level": level, "coverage": cov,
               "assumptions": self.assumptions, "wall_s": round(wall, 2), "violations": len(self.violations)}
-        os.makedirs(os.path.join(VERIF, "evidence"), exist_ok=True)
-        with open(os.path.join(VERIF, "evidence", self.pid + ".json"), "w") as f:
+        evdir = os.path.join(VERIF, "evidence")
+        if os.environ.get("RV_NO_EVIDENCE"):       # development runs against a modified tree (tools/seed.py)
+            evdir = os.path.join(VERIF, ".work", "evidence-scratch")
+        os.makedirs(evdir, exist_ok=True)
+        with open(os.path.join(evdir, self.pid + ".json"), "w") as f:
             json.dump(ev, f, indent=1, sort_keys=True, default=str)
         for k, (f, n) in self.known_hits.items():
             print("KNOWN-FINDING: property=%s %s (%s; %d case(s) this run)" % (self.pid, f["what"], k, n))
         rc = 0
         if self.violations:
-            os.makedirs(os.path.join(VERIF, "replay"), exist_ok=True)
-            path = os.path.join(VERIF, "replay", "%s-%s-%d.json" % (self.pid, self.tier, self.seed))
+            rdir = os.path.join(VERIF, ".work", "replay-scratch") if os.environ.get("RV_NO_EVIDENCE") else os.path.join(VERIF, "replay")
+            os.makedirs(rdir, exist_ok=True)
+            path = os.path.join(rdir, "%s-%s-%d.json" % (self.pid, self.tier, self.seed))
             with open(path, "w") as f:
                 json.dump({"property": self.pid, "tier": self.tier, "seed": self.seed,
                            "violations": self.violations[:50], "total": len(self.violations)}, f, indent=1, default=str)
